@@ -35,17 +35,17 @@ func init() {
 		Subs: []*run.Sub{
 			{Name: "programs", N: func(t string) uint64 {
 				if t == "thorough" {
-					return 3_000_000
+					return 20_000_000
 				}
-				return 80_000
+				return 400_000
 			}, Run: c04Program,
 				Min: map[string]int64{"paths": 100000, "flat": 10000, "gradient_linear": 1000, "gradient_radial": 1000, "skip_transparent": 1000, "skip_non-premultiplied": 1000, "skip_lod": 1000,
 					"skip_stop-not-premultiplied": 100, "skip_stop-offset-out-of-range": 100, "skip_stop-offsets-not-increasing": 100, "paths_after_skipped_path": 1000, "wrapped_stop_registers": 100, "selector_wraps": 1000}},
 			{Name: "via-decoder", N: func(t string) uint64 {
 				if t == "thorough" {
-					return 1_500_000
+					return 10_000_000
 				}
-				return 40_000
+				return 200_000
 			}, Run: c04ViaDecoder,
 				Rule: "the same oracle applied to hand-assembled streams (all styling opcodes, non-canonical forms) decoded by the real decoder into a recorder that forwards to the Renderer",
 				Min:  map[string]int64{"paths": 20000, "flat": 1000, "skip_non-premultiplied": 1000}},
